@@ -354,3 +354,68 @@ Definition XSI_NS : str := [104;116;116;112;58;47;47;119;119;119;46;119;51;46;11
 Definition XS_NS : str := [104;116;116;112;58;47;47;119;119;119;46;119;51;46;111;114;103;47;50;48;48;49;47;88;77;76;83;99;104;101;109;97].
 Definition XSI_TYPE : qname := build_qname (Some XSI_NS) [116;121;112;101].
 Definition XSI_NIL : qname := build_qname (Some XSI_NS) [110;105;108].
+
+(* ---------------------------------------------------------------- converter interface *)
+(* The binding model is parametric in the primitive converter (property C05 models and
+   proves it separately).  Theorems quantify over a `conv` satisfying the laws they need
+   (Section hypotheses discharged by C05's theorems where available); the correspondence
+   check instantiates it with `conv_of_table`, a finite table of the conversions the REAL
+   converter performed while the implementation processed the same case (recorded by the
+   harness by wrapping xsdata.formats.converter.converter in the implementation process).
+   A lookup that misses the table makes the model fail closed (`None` results are
+   distinguished from misses by the `option (option _)` in the table). *)
+Record conv := mk_conv {
+  (* converter.deserialize(text, types, ns_map=..., format=...): None = ConverterError *)
+  c_deser : list ptype -> option str -> nsmap -> str -> option prim;
+  (* converter.serialize(value, format=...) *)
+  c_ser : option str -> prim -> str;
+  (* converter.test(text, types) used by compound-field choice matching *)
+  c_test : prim -> list ptype -> bool;
+  (* DataType.from_value(value) as (qualified name of the XSD type, is it xs:string?) *)
+  c_datatype : prim -> qname * bool;
+  (* DataType.from_qname(qname): python type, format, wrapper type if any *)
+  c_from_qname : qname -> option (ptype * option str * option ptype)
+}.
+
+Definition lptype_eqb := list_eqb ptype_eqb.
+Definition nsmap_eqb : nsmap -> nsmap -> bool := list_eqb (pair_eqb ostr_eqb str_eqb).
+
+Record conv_table := mk_conv_table {
+  t_deser : list (list ptype * option str * nsmap * str * option prim);
+  t_ser : list (option str * prim * str);
+  t_test : list (prim * list ptype * bool);
+  t_datatype : list (prim * (qname * bool));
+  t_from_qname : list (qname * option (ptype * option str * option ptype))
+}.
+
+(* result of a lookup that the recorded run never performed *)
+Definition MISS : str := [60;109;105;115;115;62].   (* "<miss>" *)
+
+Definition conv_of_table (t : conv_table) : conv :=
+  mk_conv
+    (fun tys fmt ns s =>
+       match find (fun e => let '(tys', fmt', ns', s', _) := e in
+                            lptype_eqb tys tys' && ostr_eqb fmt fmt' && nsmap_eqb ns ns' && str_eqb s s') (t_deser t) with
+       | Some (_, _, _, _, r) => r
+       | None => Some (PStr MISS)
+       end)
+    (fun fmt p =>
+       match find (fun e => let '(fmt', p', _) := e in ostr_eqb fmt fmt' && prim_eqb p p') (t_ser t) with
+       | Some (_, _, r) => r
+       | None => MISS
+       end)
+    (fun p tys =>
+       match find (fun e => let '(p', tys', _) := e in prim_eqb p p' && lptype_eqb tys tys') (t_test t) with
+       | Some (_, _, r) => r
+       | None => false
+       end)
+    (fun p =>
+       match find (fun e => prim_eqb p (fst e)) (t_datatype t) with
+       | Some (_, r) => r
+       | None => (MISS, false)
+       end)
+    (fun q =>
+       match find (fun e => str_eqb q (fst e)) (t_from_qname t) with
+       | Some (_, r) => r
+       | None => None
+       end).
